@@ -184,12 +184,15 @@ impl LazyAddGraphNodeAttribute {
                     "{} on {}",
                     attribute.name, node,
                 )))
-                .with_context(|| {
-                    (
-                        prev_debug_info.unwrap().into(),
+                .with_context(|| match prev_debug_info {
+                    // the conflicting value was set by an earlier attr statement of this execution
+                    Some(prev_debug_info) => (
+                        prev_debug_info.into(),
                         self.debug_info.clone().into(),
                     )
-                        .into()
+                        .into(),
+                    // it was already in the graph (pre-seeded graph, debug attribute)
+                    None => self.debug_info.clone().into(),
                 });
             };
         }
@@ -319,12 +322,15 @@ impl LazyAddEdgeAttribute {
                     "{} on edge ({} -> {})",
                     attribute.name, source, sink,
                 )))
-                .with_context(|| {
-                    (
-                        prev_debug_info.unwrap().into(),
+                .with_context(|| match prev_debug_info {
+                    // the conflicting value was set by an earlier attr statement of this execution
+                    Some(prev_debug_info) => (
+                        prev_debug_info.into(),
                         self.debug_info.clone().into(),
                     )
-                        .into()
+                        .into(),
+                    // it was already in the graph (pre-seeded graph, debug attribute)
+                    None => self.debug_info.clone().into(),
                 });
             }
         }
